@@ -14,11 +14,27 @@ VARIABLE l
 Init == l = 1
 
 Ks == {"1", "2", "3", "-1", "-2", "-3"}
+(* the same laws on the cells obtained by RUNNING the expression (`put a op b into r`, `put not a into r`) and on truthiness as *)
+(* the branch an `if` takes and whether a `while` enters its body                                                              *)
+AcceptsRun(r) ==
+  LET B(op, x, y) == IF x = r.a /\ y = r.b THEN r.pab[op] ELSE r.pba[op]
+      T(x) == IF x = r.a THEN r.pta ELSE r.ptb
+      N(x) == r.pna
+  IN /\ r.pta \in {"T", "F"} /\ r.ptb \in {"T", "F"}                    \* a branch and a loop see the same truthiness
+     /\ r.pta = r.ta /\ r.ptb = r.tb                                    \* and it is the value's truthiness
+     /\ EqSym(B, r.a, r.b) /\ NeqIsNegation(B, r.a, r.b) /\ NeqIsNegation(B, r.b, r.a)
+     /\ LtGtMirror(B, r.a, r.b) /\ LeGeMirror(B, r.a, r.b) /\ LtGtMirror(B, r.b, r.a) /\ LeGeMirror(B, r.b, r.a)
+     /\ ErrMirror(B, r.a, r.b)
+     /\ AntisymIsEq(B, r.a, r.b) /\ AntisymIsEq(B, r.b, r.a)
+     /\ OrderConsistent(B, r.a, r.b)
+     /\ LogicAgreesWithTruthy(B, T, r.a, r.b)
+     /\ NotAgreesWithTruthy(N, T, r.a)
 Accepts(r) ==
   LET B(op, x, y) == IF x = r.a /\ y = r.b THEN r.ab[op] ELSE r.ba[op]
       T(x) == IF x = r.a THEN r.ta ELSE r.tb
       N(x) == r.na
-  IN /\ EqSym(B, r.a, r.b) /\ NeqIsNegation(B, r.a, r.b) /\ NeqIsNegation(B, r.b, r.a)
+  IN /\ AcceptsRun(r)
+     /\ EqSym(B, r.a, r.b) /\ NeqIsNegation(B, r.a, r.b) /\ NeqIsNegation(B, r.b, r.a)
      /\ LtGtMirror(B, r.a, r.b) /\ LeGeMirror(B, r.a, r.b) /\ LtGtMirror(B, r.b, r.a) /\ LeGeMirror(B, r.b, r.a)
      /\ ErrMirror(B, r.a, r.b)
      /\ AntisymIsEq(B, r.a, r.b) /\ AntisymIsEq(B, r.b, r.a)
